@@ -173,7 +173,17 @@ func (h *vHist) genInput(tag string) vBadInput {
 	default: // plain valid constructor; the options decide
 		in.fn = vMkFn(nil, []reflect.Type{t}, false)
 	}
-	if in.api == 0 && in.opts == nil {
+	if in.api == 0 && in.opts == nil && (shape == 26 || shape == 27) {
+		// tagged fields: the tag x field-type grid is large; a small option menu
+		switch verifNdInt(tag+".topt", 4) {
+		case 1:
+			in.opts = []ProvideOption{Name("a")}
+		case 2:
+			in.opts = []ProvideOption{Group("g")}
+		case 3:
+			in.opts = []ProvideOption{As(new(vI0))}
+		}
+	} else if in.api == 0 && in.opts == nil {
 		switch verifNdInt(tag+".opt", 17) {
 		case 14:
 			in.opts = []ProvideOption{Group(",flatten")}
@@ -315,9 +325,14 @@ type vProbeS struct {
 // vProbe consumes, from scope s, the keys an accepted input may have been
 // registered under and reports the verdict classes.
 func vProbe(s *Scope, all bool) string {
-	fns := []interface{}{func(vProbeG) {}, func(*vA) {}}
+	n := 0 // what the consumers saw: group sizes, nil-ness
+	fns := []interface{}{func(in vProbeG) { n += 1 + len(in.X) }, func(x *vA) {
+		if x != nil {
+			n += 100
+		}
+	}}
 	if all {
-		fns = append(fns, func([]*vA) {}, func(vProbeN) {}, func(vProbeS) {}, func(vI0) {}, func(*vT0) {})
+		fns = append(fns, func([]*vA) {}, func(vProbeN) {}, func(in vProbeS) { n += 1000 * (1 + len(in.X)) }, func(vI0) {}, func(*vT0) {})
 	}
 	out := ""
 	for _, fn := range fns {
@@ -325,7 +340,7 @@ func vProbe(s *Scope, all bool) string {
 		o := vGuard(func() error { return s.Invoke(fn) })
 		out += vClassNames[o.class] + vPanicText(o.panicv) + ";"
 	}
-	return out
+	return out + "seen=" + vItoa(n)
 }
 
 func vHasPanic(s string) bool {
